@@ -138,6 +138,12 @@ pub fn run(case: &Value) -> Value {
     let mut c = build_compiler(case);
     // statistics give the matching algorithm of every string (evidence only)
     let algos: std::sync::Arc<std::sync::Mutex<Vec<String>>> = Default::default();
+    // NaN cannot be written in JSON: external float symbols listed here are defined as NaN
+    if let Some(names) = case["nan_symbols"].as_array() {
+        for n in names {
+            let _ = c.define_symbol(n.as_str().unwrap_or("nan"), f64::NAN);
+        }
+    }
     if let Err(e) = add_rules(&mut c, case) {
         return json!({"compile_error": e});
     }
